@@ -117,8 +117,12 @@ CertsOK(certs) == \A i \in 1..Len(certs) :
 SigDigits(sp) == Len(StripTrailing(ParseDec(sp).digits))
 K2Class(sp) == SigDigits(sp) > 19
 
+\* value_de: the certificates are the nearest doubles of v's numbers (checked).
+\* text_de : the numbers reach the Value through serde_json's text parser, which is not
+\*           correctly rounded; the certificates are the doubles that parser presents
+\*           (observations, not checked): the Value must keep what it is shown.
 ValueDeWhy(e) ==
-  IF ~CertsOK(e.certs) THEN "certificate"
+  IF e.ev = "value_de" /\ ~CertsOK(e.certs) THEN "certificate"
   ELSE IF "t" \notin DOMAIN e.back THEN "panic_or_error"
   ELSE IF Keeps(e.expect, e.back, e.certs) THEN ""
   ELSE IF (\E sp \in NumbersOf(e.v) : K2Class(sp)) THEN "k2"
